@@ -251,13 +251,15 @@ class Programs:
             if depth == 0 or c < 0.40:
                 out.append(self._assign(names, ex, pool))
             elif c < 0.65:
-                arms = [[self._cond(ex), self._block(depth - 1, names, ex, pool, in_fsm=in_fsm)]
+                # (an FSM may also be written inside a control block: its register then only advances while the block is active,
+                # but ongoing() keeps reflecting the current state)
+                arms = [[self._cond(ex), self._block(depth - 1, names, ex, pool, in_fsm=in_fsm, allow_fsm=allow_fsm and in_fsm is None)]
                         for _ in range(r.randint(1, 3))]
                 els = self._block(depth - 1, names, ex, pool, in_fsm=in_fsm) if r.random() < 0.5 else None
                 out.append(["if", arms, els])
             elif c < 0.88:
                 out.append(self._switch(depth, names, ex, pool, in_fsm))
-            elif allow_fsm and top and not self.fsms:
+            elif allow_fsm and not self.fsms and in_fsm is None and depth >= 1:
                 out.append(self._fsm(depth, names, ex, pool))
             elif in_fsm is not None and r.random() < 0.7:
                 out.append(["next", in_fsm, r.choice(self.fsms[in_fsm]["states"])])
@@ -289,10 +291,9 @@ class Programs:
                 pats = [r.randint(lo, hi) for _ in range(r.randint(1, 2))]
             else:
                 pats = ["".join(r.choice("01-") for _ in range(tw)) for _ in range(r.randint(1, 2))]
-            if got_default and pats is not None:
-                continue     # Case after Default is rejected/warned: keep Default last
             cases.append([pats, self._block(depth - 1, names, ex, pool, in_fsm=in_fsm)])
-        cases.sort(key=lambda c: c[0] is None)
+        if r.random() < 0.6:
+            cases.sort(key=lambda c: c[0] is None)       # Default last (the usual style); otherwise cases after Default stay: legal, never selected
         return ["switch", test, cases]
 
     def _fsm(self, depth, names, ex, pool):
